@@ -324,7 +324,11 @@ def main():
         json.dump(ev, f, indent=1, default=str)
     print('%s: %d/%d obligations discharged, %d undecided, %d known findings, %d violations, stand-ins: %s  [%.1fs]' % (
         prop, n_dis, n_obl, len(undecided) + len(n_unknown), len(known_hits), nviol,
-        ', '.join('%s=%d' % (s['name'].split('[')[-1].rstrip(']'), s['evaluations']) for s in standins) or 'none',
+        ', '.join(['%s=%d' % (s['name'].split('[')[-1].rstrip(']'), s['evaluations']) for s in standins
+                   if not s['name'].startswith('bounded:contract ')] +
+                  (['bounded-contracts(%d)=%d' % (len([s for s in standins if s['name'].startswith('bounded:contract ')]),
+                                                   sum(s['evaluations'] for s in standins if s['name'].startswith('bounded:contract ')))]
+                   if any(s['name'].startswith('bounded:contract ') for s in standins) else [])) or 'none',
         time.time() - t0))
     if n_obl == 0 and not standins:
         print('checker error: zero obligations generated')
